@@ -139,6 +139,8 @@ static int handler(void *arg, MPT_STRUCT(event) *ev)
 	return hr_r;
 }
 
+static void sub_event(const char *a);
+
 /* ---------- token lookup ---------- */
 static int tok_of(const void *p)
 {
@@ -199,15 +201,26 @@ static int h_next(MPT_INTERFACE(input) *in, int what)
 	}
 	return h->rv;
 }
+static int last_disp_ret;
+static int h_dispatch_do(struct hin *h, MPT_TYPE(event_handler) cmd, void *arg);
 static int h_dispatch(MPT_INTERFACE(input) *in, MPT_TYPE(event_handler) cmd, void *arg)
 {
 	struct hin *h = (void *) in;
+	int r;
+	if (h->unrefs && nnexts < MAXCALLS) nexts[nnexts++] = -h->tok;     /* used after release */
+	used_r = 0; used_clear = 0;
+	r = h_dispatch_do(h, cmd, arg);
+	last_disp_ret = r;
+	if (in_loop) sub_event("dispatch");
+	return r;
+}
+static int h_dispatch_do(struct hin *h, MPT_TYPE(event_handler) cmd, void *arg)
+{
 	MPT_STRUCT(event) ev = MPT_EVENT_INIT;
 	MPT_STRUCT(message) msg = MPT_MESSAGE_INIT;
 	uint8_t *copy;
 	size_t len;
 	int r, more;
-	if (h->unrefs && nnexts < MAXCALLS) nexts[nnexts++] = -h->tok;     /* used after release */
 	if (!h->nraw || h->nraw < (size_t) h->raw[0] + 1) return 0;
 	len = h->raw[0];
 	copy = (uint8_t *) malloc(len ? len : 1);                           /* exact size */
@@ -237,17 +250,16 @@ static struct hin *h_new(int tok, int fd, int claim)
 }
 
 /* ---------- proxy around the notifier's handler (records what mpt_loop emits) ---------- */
-static void sub_event(const char *a);
 static int last_emit_ret;
 static int proxy(void *arg, MPT_STRUCT(event) *ev)
 {
 	int r, hadmsg = ev && ev->msg;
 	(void) arg;
 	if (!ev) return real_cmd ? real_cmd(real_arg, 0) : 0;
-	used_r = 0; used_clear = 0;
+	if (!hadmsg) { used_r = 0; used_clear = 0; }
 	r = real_cmd(real_arg, ev);
 	last_emit_ret = r;
-	if (in_loop) sub_event(hadmsg ? "dispatch" : "default");
+	if (in_loop && !hadmsg) sub_event("default");
 	return r;
 }
 static void wrap_disp(void)
@@ -255,6 +267,32 @@ static void wrap_disp(void)
 	real_cmd = no._disp.cmd; real_arg = no._disp.arg;
 	no._disp.cmd = proxy; no._disp.arg = 0;
 }
+
+/* ---------- recording trampoline around dispatch() of the library's inputs ---------- */
+/* The object keeps all its methods; only the dispatch entry of a per-input copy of its method table goes through
+ * here, so that a call made by mpt_loop is seen even when nothing reaches a handler. */
+static MPT_INTERFACE_VPTR(input) tramp_vptr[MAXIN + 1];
+static const MPT_INTERFACE_VPTR(input) *orig_vptr[MAXIN + 1];
+static int t_dispatch(MPT_INTERFACE(input) *in, MPT_TYPE(event_handler) cmd, void *arg)
+{
+	int t = tok_of(in), r;
+	if (t < 1) return MPT_ERROR(BadArgument);
+	used_r = 0; used_clear = 0;
+	r = orig_vptr[t]->dispatch(in, cmd, arg);
+	last_disp_ret = r;
+	if (in_loop) sub_event("dispatch");
+	return r;
+}
+static void install_tramp(int t)
+{
+	MPT_INTERFACE(input) *in = tab[t].in;
+	if (!in || tab[t].kind == 'h' || orig_vptr[t]) return;
+	orig_vptr[t] = in->_vptr;
+	tramp_vptr[t] = *in->_vptr;
+	tramp_vptr[t].dispatch = t_dispatch;
+	in->_vptr = &tramp_vptr[t];
+}
+static int disp_class(int r) { return (r < 0 || (r & MPT_EVENTFLAG(CtlError))) ? -1 : (r & MPT_EVENTFLAG(Flags)); }
 
 /* ---------- observation ---------- */
 static void limbs_out(const char *key, uintptr_t v)
@@ -314,6 +352,7 @@ static void discover(void)
 			s->peer = aclients < nclients ? clients[aclients++] : -1;
 			s->ino = fstat(s->fd, &st) < 0 ? 0 : st.st_ino;
 			track(s->fd);
+			install_tramp(nin);
 		}
 	}
 }
@@ -429,7 +468,8 @@ static void sub_event(const char *a)
 	else j_int("x", 0);
 	fputs("},\"obs\":{", drv_out);
 	drv_first = 1;
-	if (!strcmp(a, "dispatch") || !strcmp(a, "default")) emit_tail("any", 1, emit_class(last_emit_ret));
+	if (!strcmp(a, "dispatch")) emit_tail("any", 1, disp_class(last_disp_ret));
+	else if (!strcmp(a, "default")) emit_tail("any", 1, emit_class(last_emit_ret));
 	else emit_tail("any", 0, 0);
 	fputs("},\"dbg\":{}}\n", drv_out);
 	fflush(drv_out);
@@ -508,6 +548,7 @@ static void drv_reset(void)
 	no = fresh;
 	disp = 0; real_cmd = 0; real_arg = 0;
 	memset(tab, 0, sizeof(tab));
+	memset(orig_vptr, 0, sizeof(orig_vptr));
 	nin = 0; cur = 0; nclients = aclients = 0;
 	in_loop = 0;
 	clear_logs();
@@ -595,12 +636,13 @@ static int do_add(struct cmd *c, int kind, int t)
 		}
 	}
 	(void) c;
+	if (r >= 0) install_tramp(t);
 	return r;
 }
 
 static int send_msg(struct slot *s, const uint8_t *d, size_t n)
 {
-	if (s->peer < 0) return -1;
+	if (s->peer < 0 || s->released) return -1;     /* nobody reads any more: the peer's write would fail */
 	if (s->kind == 'h') {
 		uint8_t frame[MAXLEN + 1];
 		if (n > MAXLEN) n = MAXLEN;
@@ -615,7 +657,7 @@ static int send_msg(struct slot *s, const uint8_t *d, size_t n)
 	}
 	if (n && mpt_stream_push(s->ps, n, d) < 0) return -5;
 	if (mpt_stream_push(s->ps, 0, 0) < 0) return -6;
-	if (mpt_stream_flush(s->ps) < 0) return -7;
+	if (mpt_stream_flush(s->ps) < 0) { s->ps = 0; s->peer = -1; return -7; }   /* writer broken: not used again */
 	return 0;
 }
 
@@ -685,7 +727,7 @@ static void drv_step(struct cmd *c)
 	}
 	else if (!strcmp(a, "addsame") || !strcmp(a, "addbad")) {
 		int of = (int) drv_int(c, "of", 0), r;
-		struct hin *h = h_new(REFUSED_TOK, -1, (a[3] == 's' && of >= 1 && of <= nin) ? tab[of].fd : -1);
+		struct hin *h = h_new(REFUSED_TOK, -1, (a[3] == 's' && of >= 1 && of <= nin && !tab[of].released) ? tab[of].fd : -1);
 		r = mpt_notify_add(&no, POLLIN, &h->_in);
 		answer(c, r < 0 ? "refused" : "ok", 0, 0, r);
 	}
@@ -740,7 +782,7 @@ static void drv_step(struct cmd *c)
 		if (cur && t > 0 && !tab[t].released) {
 			r = cur->_vptr->dispatch(cur, no._disp.cmd, no._disp.arg);
 		}
-		answer(c, "ok", 1, (r < 0 || (r & MPT_EVENTFLAG(CtlError))) ? -1 : (r & MPT_EVENTFLAG(Flags)), r);
+		answer(c, "ok", 1, disp_class(r), r);
 	}
 	else if (!strcmp(a, "default")) {
 		/* what mpt_loop does when idle: the handler is called with an empty event */
